@@ -156,7 +156,7 @@ def _point(fam, term, kind, rec, env, rnd):
             rho = rnd.choice(RHO[rec["shp"]])
             tau = rnd.randrange(240, 320) / 4.0          # exactly representable in single precision ("at" means t - tau == 0)
             d = rnd.choice([0.3, 2.0, 11.0])
-            t = {"before": tau - d, "at": tau, "after": tau + d}[rec["pos"]]
+            t = {"before": tau - d, "at": tau, "after": tau + d, "just_before": tau - 2.0 ** -15, "just_after": tau + 2.0 ** -15}[rec["pos"]]
             env.update(t=t, tau=tau, rho=rho, nu=rnd.choice([0.4, 3.0, 25.0]), xi=rnd.uniform(-1.2, 1.2), shift=rnd.uniform(-1.5, 1.5))
             observed = rec["cens"] == "observed"
             # float64 event times as in Dataset; (n_ind = 2, n_events = 1): the second individual has the opposite censoring
